@@ -548,6 +548,250 @@ static void run_raises(const Case& c) {
 
 static uint64_t gen_where();
 
+// ---------------------------------------------------------------- expect_raises on nested exceptions
+//
+// The (E, thrown type) matrix above throws plain objects. An exception object may also CARRY another exception:
+// std::throw_with_nested(outer) called while `inner` is being handled throws an object of an unspecified type that is
+// publicly derived from both the type of `outer` and std::nested_exception ([except.nested]), the latter holding an
+// exception_ptr to `inner`. "fn throws an exception whose type is E or derives from it" is about the thrown object: its
+// type derives from the OUTER type (and from std::nested_exception), so the verdict for E is decided by the outer type
+// alone - whatever is carried inside (a matching type, a non-matching one, an int, nothing at all, another nested
+// exception) is not the type of what fn throws. A runtime_error carrying an out_of_range is not an out_of_range.
+//   layer  = type (0..14 of TypeAt) + 15 * shape; shape 0 = std::throw_with_nested(T), 1 = throw Wrapped<T> (an own class
+//            deriving from T and std::nested_exception, the documented way to build such a type by hand)
+//   payload = what is thrown innermost: 0..14 a plain object of TypeAt, 15 an int, 16 nothing (the innermost layer is thrown
+//            while no exception of fn's is being handled: its nested pointer is null, or refers to the exception the
+//            ambient state has in flight)
+//   E      = the 15 types of the matrix above + std::nested_exception (a public base of every such object)
+// Oracle: std::is_convertible<const Wrapped<Outer>*, const E*> (Wrapped<T> has exactly the bases [except.nested] promises for
+// the unspecified type), confirmed per case by a `catch (const E&)` handler of the harness's own (clause ORACLE-...).
+// case: n = [E, payload, entry, where, layer (outermost), layer, ... (innermost)]
+template <>
+struct TypeAt<kNumTypes> { using type = std::nested_exception; };
+static const int kNumNestedExpected = kNumTypes + 1;
+static const uint64_t kPayloadInt = kNumTypes, kPayloadNone = kNumTypes + 1, kNumPayloads = kNumTypes + 2;
+static const uint64_t kNumLayerCodes = 2 * kNumTypes;
+static const size_t kMaxLayers = 4;
+static const char* nested_expected_name(uint64_t e) { return e < static_cast<uint64_t>(kNumTypes) ? kTypeNames[e] : "std::nested_exception"; }
+
+template <typename T>
+static T make_one() {
+  if constexpr (std::is_default_constructible_v<T>) return T();
+  else if constexpr (std::is_same_v<T, phosg::expectation_failed>) return phosg::expectation_failed("inner failure", kInnerFile, kInnerLine);
+  else return T("thrown-by-fn");
+}
+
+template <typename T>
+struct Wrapped : T, std::nested_exception { // std::nested_exception's constructor captures std::current_exception()
+  explicit Wrapped(const T& t) : T(t) {}
+};
+
+template <int CODE>
+[[noreturn]] static void wrap_and_throw() {
+  using T = typename TypeAt<CODE % kNumTypes>::type;
+  if constexpr (CODE / kNumTypes == 0) std::throw_with_nested(make_one<T>());
+  else throw Wrapped<T>(make_one<T>());
+}
+template <int I>
+static void throw_plain_at() { throw_one<typename TypeAt<I>::type>(); }
+
+using ThrowFn = void (*)();
+template <int... Is>
+static void fill_wrappers(ThrowFn* t, std::integer_sequence<int, Is...>) { ((t[Is] = &wrap_and_throw<Is>), ...); }
+template <int... Is>
+static void fill_plain(ThrowFn* t, std::integer_sequence<int, Is...>) { ((t[Is] = &throw_plain_at<Is>), ...); }
+
+static void throw_payload(uint64_t payload) {
+  static ThrowFn table[kNumTypes];
+  static bool init = false;
+  if (!init) {
+    fill_plain(table, std::make_integer_sequence<int, kNumTypes>{});
+    init = true;
+  }
+  if (payload == kPayloadNone) return;
+  if (payload == kPayloadInt) throw 42;
+  table[payload]();
+}
+static void throw_layer(uint64_t code) {
+  static ThrowFn table[kNumLayerCodes];
+  static bool init = false;
+  if (!init) {
+    fill_wrappers(table, std::make_integer_sequence<int, static_cast<int>(kNumLayerCodes)>{});
+    init = true;
+  }
+  table[code]();
+}
+// throws layers[0] carrying (layers[1] carrying (... carrying payload))
+static void throw_chain(const uint64_t* layers, size_t count, uint64_t payload) {
+  if (count == 0) {
+    throw_payload(payload);
+    return;
+  }
+  try {
+    throw_chain(layers + 1, count - 1, payload);
+  } catch (...) {
+    throw_layer(layers[0]); // the exception just caught is the one being handled: it becomes the nested one
+  }
+  throw_layer(layers[0]); // nothing came out of the inner part (payload "nothing")
+}
+
+struct NestedRow {
+  bool pass_plain[kNumTypes]; // is_convertible<const T*, const E*>: would a plain T match (used to classify what is carried inside)
+  bool pass_wrapped[kNumTypes]; // is_convertible<const Wrapped<T>*, const E*>: the verdict when T is the outer type
+  bool open_wrapped[kNumTypes]; // derives from E only through an ambiguous / inaccessible base
+  Outcome (*via_macro)(uint64_t where, uint64_t& line, const Thunk& fn);
+  Outcome (*via_fn)(uint64_t where, const char* file, uint64_t line, const Thunk& fn);
+  bool (*handler_matches)(const Thunk& fn);
+};
+
+template <typename E>
+static Outcome nested_macro(uint64_t where, uint64_t& line, const Thunk& fn) {
+  return observe_in(where, [&] { SITE(expect_raises(E, fn)); });
+}
+template <typename E>
+static Outcome nested_fn(uint64_t where, const char* file, uint64_t line, const Thunk& fn) {
+  return observe_in(where, [&] { phosg::expect_raises_fn<E>(file, line, fn); });
+}
+template <typename E>
+static bool nested_handler_matches(const Thunk& fn) {
+  try {
+    fn();
+  } catch (const E&) {
+    return true;
+  } catch (...) {
+  }
+  return false;
+}
+
+template <int EI, int... Ts>
+static void fill_nested_row(NestedRow& r, std::integer_sequence<int, Ts...>) {
+  using E = typename TypeAt<EI>::type;
+  ((r.pass_plain[Ts] = std::is_convertible_v<const typename TypeAt<Ts>::type*, const E*>), ...);
+  ((r.pass_wrapped[Ts] = std::is_convertible_v<const Wrapped<typename TypeAt<Ts>::type>*, const E*>), ...);
+  ((r.open_wrapped[Ts] = std::is_base_of_v<E, Wrapped<typename TypeAt<Ts>::type>> && !std::is_convertible_v<const Wrapped<typename TypeAt<Ts>::type>*, const E*>), ...);
+  r.via_macro = &nested_macro<E>;
+  r.via_fn = &nested_fn<E>;
+  r.handler_matches = &nested_handler_matches<E>;
+}
+template <int... EIs>
+static void fill_nested_rows(NestedRow* rows, std::integer_sequence<int, EIs...>) {
+  (fill_nested_row<EIs>(rows[EIs], std::make_integer_sequence<int, kNumTypes>{}), ...);
+}
+static const NestedRow& nested_row(uint64_t e) {
+  static NestedRow rows[kNumNestedExpected];
+  static bool init = false;
+  if (!init) {
+    fill_nested_rows(rows, std::make_integer_sequence<int, kNumNestedExpected>{});
+    init = true;
+  }
+  if (e >= static_cast<uint64_t>(kNumNestedExpected)) throw std::logic_error("expected type outside the matrix");
+  return rows[e];
+}
+
+static void run_raises_nested(const Case& c) {
+  uint64_t e = c.u(0), payload = c.u(1), entry = c.u(2), where = where_of(c, 3);
+  if (c.n.size() < 5 || c.n.size() > 4 + kMaxLayers || payload >= kNumPayloads || entry >= 2) throw std::logic_error("cell outside the matrix");
+  std::vector<uint64_t> layers(c.n.begin() + 4, c.n.end());
+  for (uint64_t l : layers)
+    if (l >= kNumLayerCodes) throw std::logic_error("bad layer code");
+  const NestedRow& row = nested_row(e);
+  uint64_t outer = layers[0] % kNumTypes;
+  bool should_pass = row.pass_wrapped[outer], open = row.open_wrapped[outer];
+  // does anything carried inside have a type that would match E if it were the thrown object?
+  bool inside_matches = payload < static_cast<uint64_t>(kNumTypes) && row.pass_plain[payload];
+  for (size_t i = 1; i < layers.size(); i++) inside_matches = inside_matches || row.pass_wrapped[layers[i] % kNumTypes];
+
+  int calls = 0;
+  Thunk fn = [&] {
+    calls++;
+    throw_chain(layers.data(), layers.size(), payload);
+  };
+  uint64_t line = 0;
+  const char* file = __FILE__;
+  Outcome o;
+  if (entry == 0) {
+    o = row.via_macro(where, line, fn);
+  } else {
+    file = "explicit-nested-site.cc";
+    line = 9000 + e * 100 + layers[0];
+    o = row.via_fn(where, file, line, fn);
+  }
+  const char* en = nested_expected_name(e);
+  std::string thrown = cat((layers[0] / kNumTypes == 0 ? "std::throw_with_nested(" : "Wrapped<"), kTypeNames[outer], (layers[0] / kNumTypes == 0 ? ")" : ">"),
+      " carrying ", layers.size() > 1 ? cat(layers.size() - 1, " more nested layer(s) around ") : std::string(),
+      payload == kPayloadNone ? std::string("nothing") : payload == kPayloadInt ? std::string("an int") : std::string(kTypeNames[payload]));
+  std::string cls = cat("E=", en, ",fn-throws-nested:", (should_pass ? "outer-matching" : open ? "outer-derived-unreachable" : "outer-other"),
+      (inside_matches ? ",carries-matching" : payload == kPayloadNone ? ",carries-nothing" : ",carries-other"), (layers.size() > 1 ? ",nested-in-nested" : ""), at(where));
+  VCHECK(calls >= 1, "fn-not-called", "expect_raises<", en, "> never invoked fn");
+  VCHECK(calls == 1, cat("fn-called-again:", cls), "expect_raises invoked fn ", calls, " times");
+  ctx().cls(cat("where:", kWhereNames[where]));
+  if (open) {
+    ctx().exclude("expect_raises: thrown type derives from E only through an ambiguous or inaccessible base (verdict left open by the statement)");
+    if (o.threw) check_failure(o, file, line, "", false, "", cat("raises:", cls));
+    return;
+  }
+  // the type std::throw_with_nested really throws is unspecified: confirm the model (bases = outer type + nested_exception)
+  bool handler = row.handler_matches([&] { throw_chain(layers.data(), layers.size(), payload); });
+  VCHECK(handler == should_pass, cat("ORACLE-handler-disagrees:", cls), "a catch (const ", en, "&) handler ", (handler ? "matches " : "does not match "), thrown, " although the hierarchy says otherwise");
+  if (should_pass) {
+    VCHECK(!o.threw, cat("raises-must-pass:", cls), "expect_raises<", en, ">(fn that throws ", thrown, ") threw ", (o.is_expectation_failed ? "expectation_failed" : o.other_type), ": ", o.what);
+  } else {
+    VCHECK(o.threw, cat("raises-must-fail:", cls), "expect_raises<", en, ">(fn that throws ", thrown, ") returned normally: the thrown object's type neither is nor derives from ", en);
+    check_failure(o, file, line, "", false, "", cat("raises:", cls));
+    VCHECK(!(o.file == kInnerFile) && o.line != kInnerLine, cat("raises-own-failure:", cls), "an exception thrown by fn escaped instead of the helper's failure");
+  }
+  // non-trivial: what is carried inside would give the other verdict, or nothing is carried (null / ambient nested pointer), or E is a
+  // base of expectation_failed or outside the tree-shaped hierarchy (std::nested_exception included), or the ambient state is not plain
+  if (inside_matches != should_pass || payload == kPayloadNone || e == 0 || e == 1 || e == 6 || e >= 10 || outer >= 10 || where != 0) ctx().nontrivial_case();
+  ctx().cls(cat("raises_nested:", should_pass ? "must-pass" : "must-fail", inside_matches ? ",carries-matching" : ",carries-other"));
+  ctx().cls(cat("raises_nested:layers=", layers.size()));
+}
+
+static void enum_raises_nested(Enum& en) {
+  uint64_t idx = 0;
+  // one layer: complete
+  for (uint64_t e = 0; e < static_cast<uint64_t>(kNumNestedExpected); e++)
+    for (uint64_t l0 = 0; l0 < kNumLayerCodes; l0++) {
+      if (!en.mine(idx++)) continue;
+      for (uint64_t p = 0; p < kNumPayloads && !en.stop; p++)
+        for (uint64_t entry = 0; entry < 2; entry++)
+          for (uint64_t w = 0; w < kNumWhere; w++) en.exec(Case("raises_nested").N(e).N(p).N(entry).N(w).N(l0));
+    }
+  // nested-in-nested: every outer layer x every std::throw_with_nested middle layer x a payload of each kind
+  // (logic_error, out_of_range, runtime_error, expectation_failed, an int, nothing)
+  static const uint64_t kPayloads2[] = {1, 3, 4, 6, kPayloadInt, kPayloadNone};
+  for (uint64_t e = 0; e < static_cast<uint64_t>(kNumNestedExpected) && !en.stop; e++)
+    for (uint64_t l0 = 0; l0 < kNumLayerCodes; l0++) {
+      if (!en.mine(idx++)) continue;
+      for (uint64_t l1 = 0; l1 < static_cast<uint64_t>(kNumTypes) && !en.stop; l1++)
+        for (uint64_t p : kPayloads2)
+          for (uint64_t entry = 0; entry < 2; entry++)
+            for (uint64_t w = 0; w < kNumWhere; w++) en.exec(Case("raises_nested").N(e).N(p).N(entry).N(w).N(l0).N(l1));
+    }
+  en.complete("16 expected types (the 15 of `raises` + std::nested_exception) x outer layer {std::throw_with_nested(T), own class deriving from T and "
+              "std::nested_exception} x 15 outer types x carried exception {each of the 15 types, an int, nothing} x {macro, expect_raises_fn} x 5 ambient states; "
+              "nested-in-nested: the same outer layers x a std::throw_with_nested middle layer of each of the 15 types x carried {logic_error, out_of_range, "
+              "runtime_error, expectation_failed, an int, nothing} x 2 entry points x 5 ambient states");
+}
+
+static Case gen_raises_nested() {
+  uint64_t e = vg::below(kNumNestedExpected);
+  uint64_t payload = vg::below(kNumPayloads);
+  size_t count = 1 + vg::below(kMaxLayers);
+  std::vector<uint64_t> layers;
+  for (size_t i = 0; i < count; i++) layers.push_back(vg::below(kNumLayerCodes));
+  // in half of the cases something carried inside is exactly E (the verdict must still follow the outer type)
+  if (e < static_cast<uint64_t>(kNumTypes) && vg::coin()) {
+    uint64_t pos = vg::below(count); // 0 = the payload, i = layer i
+    if (pos == 0) payload = e;
+    else layers[pos] = e + kNumTypes * vg::below(2);
+  }
+  Case c("raises_nested");
+  c.N(e).N(payload).N(vg::below(2)).N(gen_where());
+  for (uint64_t l : layers) c.N(l);
+  return c;
+}
+
 // ---------------------------------------------------------------- expect_raises across translation units
 //
 // The matrix above draws E and the thrown type from one translation unit, where every type has its own name. Types with
@@ -1101,6 +1345,7 @@ int main(int argc, char** argv) {
   std::vector<SubCheck> checks;
   checks.push_back({"raises", run_raises, nullptr, 0, 0, 100, enum_raises});
   checks.push_back({"raises_tu", run_raises_tu, nullptr, 0, 0, 100, enum_raises_tu});
+  checks.push_back({"raises_nested", run_raises_nested, gen_raises_nested, 60000, 400000, 100, enum_raises_nested});
   checks.push_back({"once", run_once, gen_once, 80000, 400000, 100, enum_once});
   checks.push_back({"rel_int", run_rel_int, gen_rel_int, 160000, 800000, 100, enum_rel_int});
   checks.push_back({"rel_dbl", run_rel_dbl, gen_rel_dbl, 160000, 800000, 100, enum_rel_dbl});
